@@ -550,7 +550,7 @@ brk("B43", "format: drop the `is not None` test",
             yield ValidationError(error.message, cause=error.cause)''', '''    try:
         validator.format_checker.check(instance, format)
     except FormatError as error:
-        yield ValidationError(error.message, cause=error.cause)''')], {"C12": "R12.1|"})
+        yield ValidationError(error.message, cause=error.cause)''')], {"C12": "R12.1|", "C03": "R3.1|"})
 
 brk("B44", "format: except Exception",
     [(KV, "        except FormatError as error:\n            yield ValidationError(error.message, cause=error.cause)",
@@ -563,7 +563,7 @@ brk("B45", "check: drop the early return for unknown names",
     [(F, '''        if format not in self.checkers:
             return
 
-        func, raises = self.checkers[format]''', '''        func, raises = self.checkers[format]''')], {"C12": "R12.3|"})
+        func, raises = self.checkers[format]''', '''        func, raises = self.checkers[format]''')], {"C12": "R12.3|", "C03": "R3.1|"})
 
 brk("B45b", "check: FormatError only when the result is exactly False",
     [(F, "        if not result:\n            raise FormatError(", "        if result is False:\n            raise FormatError(")], {"C12": "R12.3|"})
@@ -633,7 +633,7 @@ brk("B11", "resolve_from_url: drop the except Exception wrapper",
             except Exception as exc:
                 raise exceptions.RefResolutionError(exc)
 ''', '''            document = self.resolve_remote(url)
-''')], {"C15": "R15.2|"})
+''')], {"C15": "R15.2|", "C03": "R3.1|"})
 
 brk("B11b", "resolver store is a plain dict",
     [(V, '''        self.store = _utils.URIDict(
@@ -1083,7 +1083,7 @@ brk("B28", "Draft 4 table: minimum bound to the Draft 6 function",
         u"multipleOf": _validators.multipleOf,''')], {"C01": "R1.3|", "C10": "R10.1|", "C05": "R5.3|"})
 
 brk("B29", "minLength: drop the string gate",
-    [(KV, '''    if validator.is_type(instance, "string") and len(instance) < mL:''', '''    if len(instance) < mL:''')], {"C01": "R1.2|"})
+    [(KV, '''    if validator.is_type(instance, "string") and len(instance) < mL:''', '''    if len(instance) < mL:''')], {"C01": "R1.2|", "C03": "R3.1|"})
 
 brk("B29b", "maxItems compares with >=",
     [(KV, '''    if validator.is_type(instance, "array") and len(instance) > mI:''', '''    if validator.is_type(instance, "array") and len(instance) >= mI:''')], {"C01": "R1.3|"})
@@ -1156,3 +1156,105 @@ brk("B34d", "required: reports names that ARE present",
             yield ValidationError("%r is a required property" % property)''', '''    for property in required:
         if property in instance:
             yield ValidationError("%r is a required property" % property)''')], {"C01": "R1.3b|"})
+
+
+# --------------------------------------------------------------------------- C03
+brk("B80", "additionalItems: len() of a possibly boolean items (pre-fix shape)",
+    [(KV, '''        not validator.is_type(schema.get("items", {}), "array")''', '''        validator.is_type(schema.get("items", {}), "object")''')], {"C03": "R3.1|"})
+
+brk("B81", "multipleOf: float division outside the try (pre-fix shape)",
+    [(KV, '''        try:
+            quotient = instance / dB
+            failed = int(quotient) != quotient''', '''        quotient = instance / dB
+        try:
+            failed = int(quotient) != quotient''')], {"C03": "R3.1|", "C09": "R9.1|"})
+
+brk("B82", "draft3.json: dependencies may be a string or array again",
+    [("schemas/draft3.json", '''		"dependencies" : {
+			"type" : "object",''', '''		"dependencies" : {
+			"type" : ["string", "array", "object"],''')], {"C03": "R3.1|"})
+
+brk("B83", "required: object gate dropped",
+    [(KV, '''def required(validator, required, instance, schema):
+    if not validator.is_type(instance, "object"):
+        return
+''', '''def required(validator, required, instance, schema):
+''')], {"C03": "R3.1|", "C01": "R1.2|"})
+
+brk("B84", "contains: array gate dropped",
+    [(KV, '''def contains(validator, contains, instance, schema):
+    if not validator.is_type(instance, "array"):
+        return
+''', '''def contains(validator, contains, instance, schema):
+''')], {"C03": "R3.1|"})
+
+brk("B85", "uniq: hash path without the TypeError fallback",
+    [(U, '''    try:
+        return len(set(unbool(i) for i in container)) == len(container)
+    except TypeError:
+        try:''', '''    if len(container) < 2:
+        return len(set(unbool(i) for i in container)) == len(container)
+    if True:
+        try:''')], {"C03": "R3.1|"})
+
+brk("B86", "types_msg without the try/except",
+    [(U, '''        try:
+            reprs.append(repr(type["name"]))
+        except Exception:
+            reprs.append(repr(type))''', '''        reprs.append(repr(type["name"]))''')], {"C03": "R3.1|"})
+
+brk("B87", "properties_draft3: subschema['required'] instead of get",
+    [(LV, '''        elif subschema.get("required", False):''', '''        elif subschema["required"]:''')], {"C03": "R3.1|"})
+
+brk("B88", "if_: then read without the presence test",
+    [(KV, '''        if u"then" in schema:
+            then = schema[u"then"]
+            for error in validator.descend(instance, then, schema_path="then"):
+                yield error''', '''        then = schema[u"then"]
+        for error in validator.descend(instance, then, schema_path="then"):
+            yield error''')], {"C03": "R3.1|"})
+
+brk("B89", "dependencies (draft 4+): array test replaced by truthiness",
+    [(KV, '''        if validator.is_type(dependency, "array"):
+            for each in dependency:''', '''        if dependency:
+            for each in dependency:''')], {"C03": "R3.1|"})
+
+brk("B90", "minItems compares the array itself",
+    [(KV, '''    if validator.is_type(instance, "array") and len(instance) < mI:''', '''    if validator.is_type(instance, "array") and instance < mI:''')], {"C03": "R3.1|", "C01": "R1.3|"})
+
+brk("B91", "is_type: UndefinedTypeCheck no longer translated",
+    [(V, '''            try:
+                return self.TYPE_CHECKER.is_type(instance, type)
+            except exceptions.UndefinedTypeCheck:
+                raise exceptions.UnknownType(type, instance, self.schema)''', '''            return self.TYPE_CHECKER.is_type(instance, type)''')], {"C03": "R3."})
+
+brk("B92", "resolve_fragment: TypeError not handled",
+    [(V, "            except (TypeError, LookupError):", "            except LookupError:")], {"C03": "R3.1|"})
+
+brk("B93", "extras_msg indexes the first extra",
+    [(U, '''    if len(extras) == 1:
+        verb = "was"''', '''    if len(extras) == 1 and extras[0]:
+        verb = "was"''')], {"C03": "R3.1|"})
+
+brk("B94", "draft6.json: items may be any value",
+    [("schemas/draft6.json", '''        "items": {
+            "anyOf": [
+                { "$ref": "#" },
+                { "$ref": "#/definitions/schemaArray" }
+            ],
+            "default": {}
+        },''', '''        "items": {
+            "default": {}
+        },''')], {"C03": "R3.1|"})
+
+brk("B95", "pattern applied to any instance",
+    [(KV, '''    if (
+        validator.is_type(instance, "string") and
+        not re.search(patrn, instance)
+    ):''', '''    if not re.search(patrn, instance):''')], {"C03": "R3.1|", "C01": "R1.2|"})
+
+brk("B96", "format: check() result used without handler",
+    [(KV, '''        try:
+            validator.format_checker.check(instance, format)
+        except FormatError as error:
+            yield ValidationError(error.message, cause=error.cause)''', '''        validator.format_checker.check(instance, format)''')], {"C03": "R3.1|", "C12": "R12.2|"})
